@@ -291,12 +291,12 @@ theorem c17_regression_closing :
 def sndA (r : Except String (Sys × List Res)) : Option (Nat × Nat) :=
   (tcbA r).map fun t => (t.snd.una.toNat, t.snd.nxt.toNat)
 
-/-- F-C17-6: with nothing outstanding (`SND.UNA = SND.NXT = 1001`) an ACK of `1001 + 2^31` passes
-    both `mod_leq(SEG.ACK, SND.UNA)` and `mod_gt(SEG.ACK, SND.NXT)`: it is taken as a valid
-    acknowledgment of data never sent, `SND.UNA` jumps 2^31 ahead of `SND.NXT`, and the next
-    data segment lies 2^31 beyond `SND.UNA + SND.WND` -/
-theorem c17_window_counterexample_ack_half_space :
+/-- F-C17-6 (fixed): with nothing outstanding (`SND.UNA = SND.NXT = 1001`) an ACK of
+    `1001 + 2^31` used to pass both `mod_leq(SEG.ACK, SND.UNA)` and `mod_gt(SEG.ACK, SND.NXT)` and
+    was taken as a valid acknowledgment of data never sent (`SND.UNA` jumped 2^31 ahead of
+    `SND.NXT`); now it is answered with an ACK and dropped -/
+theorem c17_regression_ack_half_space :
     sndA (Sys.run {} (handshakeOps ++ [.inject .A (forge .A 16 5001 2147484649 100 []),
-      .write .A [1], .emit .A])) = some (2147484649, 1002) := by decide
+      .write .A [1], .emit .A])) = some (1001, 1002) := by decide
 
 end Elvis.Tcp
